@@ -85,6 +85,10 @@ func weave(s *Session, client []Step, r *rand.Rand) {
 		for k, n := 0, r.Intn(4); k < n; k++ {
 			evs = append(evs, Step{Who: "s", Op: "emit", ID: i})
 		}
+		if len(evs) >= 2 && i%5 == 3 {
+			// one event in the middle of the stream cannot be serialized
+			evs[len(evs)/2-1+i%2].Op = "emitbad"
+		}
 		switch r.Intn(6) {
 		case 0, 1:
 			evs = append(evs, Step{Who: "s", Op: "end", ID: i})
